@@ -9,7 +9,7 @@ use crate::refmodel::Call;
 use crate::report::{Part, Tier};
 use crate::world::Cfg;
 
-pub const ID_PAIRS: [(&str, &str); 5] = [("a", "b"), ("", "a"), ("a", "ab"), ("ab", "a"), ("a", "A")];
+pub const ID_PAIRS: [(&str, &str); 8] = [("a", "b"), ("", "a"), ("a", "ab"), ("ab", "a"), ("a", "A"), ("a", "a\n"), (" a", "a"), (" ", "")];
 
 fn cfg(first: usize, second: usize, ids: (&str, &str)) -> Cfg {
     let n = first + second;
@@ -39,7 +39,7 @@ pub fn cut_foreign_syn() -> Part {
     let pairs: Vec<(String, String)> = [("a", "b"), ("a", "ab"), ("ab", "a"), ("prod", "prod-eu"), ("prod-eu", "prod"), ("", "a"), ("a", ""), ("a", "A")]
         .iter()
         .map(|(a, b)| (a.to_string(), b.to_string()))
-        .chain([("a".to_string(), long1.clone()), (long1.clone(), "a".to_string()), ("a".to_string(), long2.clone()), (long2, long1), ("prod".to_string(), long3)])
+        .chain([("a".to_string(), "a\n".to_string()), ("a\n".to_string(), "a".to_string()), (" a".to_string(), "a\t".to_string()), ("a".to_string(), long1.clone()), (long1.clone(), "a".to_string()), ("a".to_string(), long2.clone()), (long2, long1), ("prod".to_string(), long3)])
         .collect();
     let mut n_cases = 0u64;
     for (own, foreign) in pairs.iter().map(|(a, b)| (a.as_str(), b.as_str())) {
